@@ -30,6 +30,8 @@ type envSpec struct {
 
 	payload []byte
 
+	strictValues bool // if accepted, the returned values must be those of the exactly-named headers
+
 	// expectations maintained by the deviations
 	expectTime   time.Time
 	expectExpiry time.Time
